@@ -1,0 +1,7 @@
+//go:build !verif
+
+package codegen
+
+import "github.com/HobbyOSs/gosk/pkg/ocode"
+
+func verifOcode(oc ocode.Ocode, ctx *CodeGenContext, off int, code []byte, err error) {}
